@@ -24,18 +24,26 @@ var (
 )
 
 // c05BuildTable fills table "t<i>" with PRNG-chosen content and returns the unfiltered rows as the server serves them.
-func c05BuildTable(run *common.Run, srv *drive.Srv, ti int) (string, []model.Row, gen.FilterCtx, bool) {
+// single: every row has exactly one family with 3-5 columns, so that the cell order of a row is fully specified
+// (qualifier order, then newest first) and row-cell limits/offsets after an interleave are decidable.
+func c05BuildTable(run *common.Run, srv *drive.Srv, ti int, single bool) (string, []model.Row, gen.FilterCtx, bool) {
 	r := run.Rand("C05.table", ti)
 	name := drive.MustTable(srv.Admin, fmt.Sprintf("t%d", ti), c05Fams...)
 	for _, k := range c05Keys {
 		var muts []model.Mut
 		nf := r.Range(2, 3)
+		if single {
+			nf = 1
+		}
 		fams := append([]string(nil), c05Fams...)
 		common.Shuffle(r, fams)
 		for _, f := range fams[:nf] {
 			nq := r.Range(0, 3)
 			if ti == 0 && f == fams[0] {
 				nq = 3
+			}
+			if single {
+				nq = r.Range(3, 5)
 			}
 			qs := append([]string(nil), c05Quals...)
 			common.Shuffle(r, qs)
@@ -289,7 +297,7 @@ func c05Basis(ctx gen.FilterCtx) []*model.Filter {
 }
 
 func runC05(run *common.Run) {
-	run.Rule = "case = one ReadRows(filter) over a 4-row multi-family/multi-column/multi-version table (binary qualifiers and values) on one engine, compared row by row with an independent filter evaluator applied to the unfiltered rows as served. Parts: (leaf) every leaf filter over its boundary arguments [complete list]; (pair) ALL chains and interleaves of ordered pairs and (cond) ALL conditions of ordered triples incl. nil branches over a 24-leaf basis [complete]; (tree) PRNG trees to depth 4. Non-trivial = the filter changed at least one row without emptying the whole result, or was rejected; distinct by (filter, table, engine)."
+	run.Rule = "case = one ReadRows(filter) over a 4-row multi-column/multi-version table (binary qualifiers and values; rows with 2-3 families, and one table whose rows have a single family with 3-5 columns) on one engine, compared row by row with an independent filter evaluator applied to the unfiltered rows as served. Parts: (leaf) every leaf filter over its boundary arguments [complete list]; (pair) ALL chains and interleaves of ordered pairs and (cond) ALL conditions of ordered triples incl. nil branches over a 24-leaf basis [complete]; (merge) ALL chain(interleave(X,Y), cut) over the basis and six positional cuts on the single-family table [complete]; (tree) PRNG trees to depth 4. Non-trivial = the filter changed at least one row without emptying the whole result, or was rejected; distinct by (filter, table, engine)."
 	run.Assumptions = []string{"evaluator written from the Bigtable filter documentation, own byte-regex matcher for a restricted RE2 subset", "an invalid argument must be rejected only if the documented semantics apply it to at least one cell / non-empty row; otherwise either outcome is accepted", "cells-per-row limit/offset cutting into a multi-family row that came out of an interleave is not decided (family order unspecified)", "a zero cells-per-row/column limit may be rejected or return nothing"}
 	j := common.NewJournal("C05")
 	ntables := run.N(2, 4)
@@ -310,8 +318,9 @@ func runC05(run *common.Run) {
 			_, cl, _, _ := srv.NewConn()
 			clients[w] = cl
 		}
-		for ti := 0; ti < ntables; ti++ {
-			name, rows, ctx, ok := c05BuildTable(run, srv, ti)
+		for ti := 0; ti <= ntables; ti++ {
+			single := ti == ntables // the last table has single-family rows
+			name, rows, ctx, ok := c05BuildTable(run, srv, ti, single)
 			if !ok {
 				return
 			}
@@ -380,9 +389,20 @@ func runC05(run *common.Run) {
 					do("cond", base+i, w, &model.Filter{Kind: "cond", Pred: p, T: t, F: f})
 				})
 			}
+			if run.WantSub("merge") && single {
+				// chain(interleave(X, Y), cut): the order in which an interleave merges its branches, made visible by
+				// a positional cut; complete over the basis and six cuts
+				cuts := []*model.Filter{{Kind: "rowlimit", N: 1}, {Kind: "rowlimit", N: 2}, {Kind: "rowlimit", N: 3}, {Kind: "rowoffset", N: 1}, {Kind: "rowoffset", N: 2}, {Kind: "collimit", N: 1}}
+				j.Begin(0, fmt.Sprintf("C05 merge engine=%s table=%d", engine, ti))
+				parallelW(nb*nb*len(cuts), nw, func(i, w int) {
+					x, y, c := basis[i/(nb*len(cuts))], basis[(i/len(cuts))%nb], cuts[i%len(cuts)]
+					do("merge", base+i, w, &model.Filter{Kind: "chain", Subs: []*model.Filter{{Kind: "interleave", Subs: []*model.Filter{x, y}}, c}})
+				})
+				run.Count("interleave_then_cut_filters", int64(nb*nb*len(cuts)))
+			}
 			if run.WantSub("tree") {
 				j.Begin(0, fmt.Sprintf("C05 tree engine=%s table=%d", engine, ti))
-				parallelW(ntrees/ntables, nw, func(i, w int) {
+				parallelW(ntrees/(ntables+1), nw, func(i, w int) {
 					r := run.Rand(fmt.Sprintf("C05.tree.%d", ti), i) // same trees on every engine
 					f := gen.Tree(r, ctx, 4, 4)
 					for model.CountSamples(f) > 3 {
@@ -396,6 +416,6 @@ func runC05(run *common.Run) {
 		srv.Close(true)
 	}
 	if run.Replay == nil {
-		run.Set("complete_subspaces", "leaf boundary list; all ordered pairs (chain, interleave) and all condition triples with nil branches over the 24-leaf basis")
+		run.Set("complete_subspaces", "leaf boundary list; all ordered pairs (chain, interleave) and all condition triples with nil branches over the 24-leaf basis; all interleave-then-cut triples on the single-family table")
 	}
 }
